@@ -37,6 +37,7 @@ OBLIGATIONS = [
     "Pkgcore.C32.session_replies_matched",
     "Pkgcore.C32.session_stops_at_failure",
     "Pkgcore.C32.channel_synchronised_partial",
+    "Pkgcore.C32.reply_independent_of_history",
 ]
 TRUSTED = [
     "the helper bodies (argument parsing and file-system work of doins, dodir, …) are a parameter of the model: only their "
@@ -56,7 +57,9 @@ ASSUMPTIONS = [
 ]
 RULE = ("request streams of 1-6 requests; probe sessions: outcomes None/int/str/tuple/IpcCommandError(code,msg)/other exception, "
         "messages with newlines, \\a, backslashes, quotes, non-ASCII; nonfatal true/false; valid, unbalanced and empty option "
-        "strings; existing/vanished cwd; terminators succeeded/failed/unknown command; real-helper sessions: 7 helpers, "
+        "strings; existing/vanished cwd; terminators succeeded/failed/unknown command; real-helper sessions: request sequences on "
+        "ONE set of long-lived helper objects (7 helpers, recursive installs of trees with directory symlinks and dangling "
+        "symlinks, earlier requests failing nonfatally inside each coroutine, then valid requests), "
         "existing/missing sources, options handled in Python, options forcing the `install` fallback (valid and invalid for "
         "install), injected EIO/ENOSPC in copyfile/makedirs/symlink; non-trivial = the session contains a failing request or "
         "a fallback to `install`; distinct by request stream")
@@ -524,150 +527,170 @@ def _install_fallback(ctx, mods, pkg, scratch, rng):
 
 
 def _real_helpers(ctx, mods, ebd_path, pkg, scratch, rng, sess):
+    """request sequences against ONE set of long-lived helper objects (as in a build: ebd.__init__ creates them once),
+    on one image directory; earlier requests fail nonfatally inside each of the helpers' coroutines (file install,
+    directory creation, symlink install, recursive walk), later valid requests must still be served truthfully."""
     processor, ebd_mod, ebd_ipc = mods
     work = os.path.join(scratch, "rwork")
     os.makedirs(work)
     for n in ("f1", "f2", "doc.txt"):
         open(os.path.join(work, n), "w").write("content of " + n)
-    os.makedirs(os.path.join(work, "sub/dir"))
-    open(os.path.join(work, "sub/dir/inner"), "w").write("inner")
-    os.symlink("f1", os.path.join(work, "link1"))
+    # treeA: files, a sub directory, a symlink to a directory (handled by install_symlinks); treeB: a dangling symlink
+    os.makedirs(os.path.join(work, "treeA/sub"))
+    open(os.path.join(work, "treeA/a.txt"), "w").write("content of a")
+    open(os.path.join(work, "treeA/sub/b.txt"), "w").write("content of b")
+    os.symlink("sub", os.path.join(work, "treeA/dlink"))
+    os.makedirs(os.path.join(work, "treeB"))
+    open(os.path.join(work, "treeB/ok.txt"), "w").write("content of ok")
+    os.symlink("missing-target", os.path.join(work, "treeB/broken"))
 
+    ed = os.path.join(scratch, "image-long") + "/"
+    os.makedirs(ed)
+    op = Op(pkg, ed)
+    handlers = {"doins": ebd_ipc.Doins(op), "dodoc": ebd_ipc.Dodoc(op), "doexe": ebd_ipc.Doexe(op), "dodir": ebd_ipc.Dodir(op),
+                "keepdir": ebd_ipc.Keepdir(op), "dosym": ebd_ipc.Dosym(op), "dohard": ebd_ipc.Dohard(op)}
+
+    def make_request(si, i, kind, mode, nonfatal):
+        """-> (lines, request record); the expectation is only informational, truth comes from the disk"""
+        dest = f"/s{si}_d{i}"
+        root = ed + dest.lstrip("/")
+        ins = {"fallback_ok": "-m0644 -C", "fallback_bad": "-m0644 --bogus-option"}.get(mode, "-m0644")
+        if kind in ("doins", "dodoc", "doexe"):
+            srcs = ["nonexistent-file"] if mode == "missing" else ["f1"]
+            opts = f'--dest="{dest}" --insoptions="{ins}"' + ('' if kind == "dodoc" else ' --diroptions=""')
+            args, probe = srcs, ("file", root + "/f1")
+        elif kind in ("doins-r", "dodoc-r"):
+            tree = "treeB" if mode == "dangling" else "treeA"
+            opts = f'--dest="{dest}" --insoptions="{ins}"' + ('' if kind == "dodoc-r" else ' --diroptions=""')
+            args, probe = ["-r", tree], ("tree", root + "/" + tree)
+            if mode == "linkexists":
+                os.makedirs(root + "/treeA")
+                os.symlink("elsewhere", root + "/treeA/dlink")      # the directory symlink cannot be created
+        elif kind in ("dodir", "keepdir"):
+            dirins = {"fallback_ok": "-m0755 -C", "fallback_bad": "-m0755 --bogus-option"}.get(mode, "-m0755")
+            opts = f'--diroptions="{dirins}"'
+            args, probe = [dest + "/x"], ("keep" if kind == "keepdir" else "dir", root + "/x")
+        elif kind == "dosym":
+            opts = ""
+            args = ["only-one-arg"] if mode == "missing" else ["/target/of/link", dest + "/sym"]
+            probe = ("link", root + "/sym")
+        else:
+            opts = ""
+            args, probe = [dest + "/hardsrc", dest + "/hard"], ("exists", root + "/hard")     # the source does not exist
+        name = kind.split("-")[0]
+        lines = [name, nonfatal, work, "install", opts, "".join(a + "\0" for a in args)]
+        return lines, {"name": name, "kind": kind, "nonfatal": nonfatal, "mode": mode, "options": opts, "args": args,
+                       "probe": list(probe), "dest": dest}
+
+    def on_disk(r):
+        what, path = r["probe"]
+        if what == "file":
+            return os.path.isfile(path) and open(path).read() == "content of f1"
+        if what == "tree":
+            if path.endswith("treeB"):
+                return False          # its dangling symlink cannot be installed (`install` semantics: stat of the source fails)
+            return (os.path.isfile(path + "/a.txt") and os.path.isfile(path + "/sub/b.txt") and os.path.islink(path + "/dlink")
+                    and os.readlink(path + "/dlink") == "sub")
+        if what == "dir":
+            return os.path.isdir(path)
+        if what == "keep":
+            return os.path.isdir(path) and any(f.startswith(".keep_") for f in os.listdir(path))
+        if what == "link":
+            return os.path.islink(path) and os.readlink(path) == "/target/of/link"
+        return os.path.exists(path)
+
+    FAULT_TARGET = {"doins": "copyfile", "dodoc": "copyfile", "doexe": "copyfile", "doins-r": None, "dodoc-r": None,
+                    "dodir": "makedirs", "keepdir": "makedirs", "dosym": "symlink"}
+    # scripted openers: a nonfatal failure inside each coroutine, then valid requests of every kind on the same helpers
+    OPENERS = [
+        [("doins-r", "dangling"), ("doins-r", "py"), ("doins", "py"), ("dodoc-r", "py")],        # install + walk
+        [("doins-r", "linkexists"), ("doins-r", "py"), ("dodir", "py")],                         # symlinks + walk
+        [("doins-r", "fault-dirs"), ("doins-r", "py"), ("keepdir", "py")],                       # dirs + walk
+        [("dodoc-r", "dangling"), ("dodoc-r", "py"), ("dodoc", "py")],
+        [("doins", "fault"), ("doins", "py"), ("doins-r", "py")],
+        [("doins", "fallback_bad"), ("doins", "py"), ("doins", "fallback_ok"), ("doins", "py")],
+        [("dodir", "fallback_bad"), ("dodir", "py"), ("dodir", "fault"), ("dodir", "py")],
+        [("dosym", "fault"), ("dosym", "py"), ("doexe", "fallback_bad"), ("doexe", "py")],
+    ]
+    KINDS = ["doins", "doins", "doins-r", "doins-r", "dodoc", "dodoc-r", "doexe", "dodir", "keepdir", "dosym", "dohard"]
     streams, infos = [], []
     nsess = ctx.n(40, 500)
     for si in range(nsess):
-        ed = os.path.join(scratch, "image%d" % si) + "/"
-        os.makedirs(ed)
-        op = Op(pkg, ed)
-        handlers = {"doins": ebd_ipc.Doins(op), "dodoc": ebd_ipc.Dodoc(op), "doexe": ebd_ipc.Doexe(op), "dodir": ebd_ipc.Dodir(op),
-                    "keepdir": ebd_ipc.Keepdir(op), "dosym": ebd_ipc.Dosym(op), "dohard": ebd_ipc.Dohard(op)}
-        lines, reqs = [], []
-        k = rng.choice([1, 2, 3, 4]) if si >= 8 else 2
-        fault = None
-        for i in range(k):
-            dest = f"/d{i}"
-            nonfatal = "true" if (si < 8 or rng.random() < 0.75) else "false"
-            kind = rng.choice(["doins", "doins", "doins", "dodoc", "doexe", "dodir", "keepdir", "dosym", "dohard"])
-            if si < 8:
-                kind = ["doins", "doins", "dodir", "dodir", "doins", "doins", "doexe", "dodoc"][si]
-            mode = rng.choice(["py", "py", "fallback_ok", "fallback_bad", "missing", "fault"]) if si >= 8 else \
-                ["fallback_ok", "fallback_bad", "fallback_ok", "fallback_bad", "missing", "fault", "fallback_bad", "py"][si]
-            if i == 1 and si < 8:
-                kind, mode = "dodir", "py"       # the request after the interesting one must still be answered correctly
-            ins = {"py": "-m0644", "fallback_ok": "-m0644 -C", "fallback_bad": "-m0644 --bogus-option"}.get(mode, "-m0644")
-            if kind in ("doins", "dodoc", "doexe"):
-                srcs = ["f1"] if mode != "missing" else ["nonexistent-file"]
-                opts = f'--dest="{dest}" --insoptions="{ins}" --diroptions=""'
-                if kind == "dodoc":
-                    opts = f'--dest="{dest}" --insoptions="{ins}"'
-                args = srcs
-                expect = ("file", ed + dest.lstrip("/") + "/f1", mode in ("py", "fallback_ok"))
-            elif kind in ("dodir", "keepdir"):
-                dirins = {"py": "-m0755", "fallback_ok": "-m0755 -C", "fallback_bad": "-m0755 --bogus-option"}.get(mode, "-m0755")
-                opts = f'--diroptions="{dirins}"'
-                args = [dest + "/x"]
-                ok = mode in ("py", "fallback_ok", "missing")
-                if kind == "keepdir" and mode == "fallback_bad":
-                    ok = False
-                expect = ("dir", ed + dest.lstrip("/") + "/x", ok)
-            elif kind == "dosym":
-                opts = ""
-                args = ["/target/of/link", dest + "/sym"] if mode != "missing" else ["only-one-arg"]
-                expect = ("link", ed + dest.lstrip("/") + "/sym", mode != "missing")
-            else:
-                opts = ""
-                args = [dest + "/hardsrc", dest + "/hard"]
-                expect = ("hard", ed + dest.lstrip("/") + "/hard", False)     # the source does not exist in the image
-            if mode == "fault" and fault is None and kind not in ("dohard",):
-                fault = (i, kind)
-            lines += [kind, nonfatal, work, "install", opts, "".join(a + "\0" for a in args)]
-            reqs.append({"name": kind, "nonfatal": nonfatal, "mode": mode, "options": opts, "args": args, "expect": list(expect)})
+        if si < len(OPENERS):
+            plan = [(k, m, "true") for k, m in OPENERS[si]]
+        else:
+            plan = []
+            for _ in range(rng.choice([2, 3, 4, 5])):
+                kind = rng.choice(KINDS)
+                if kind.endswith("-r"):
+                    mode = rng.choice(["py", "py", "dangling", "linkexists", "fault-dirs", "fallback_ok"])
+                else:
+                    mode = rng.choice(["py", "py", "fallback_ok", "fallback_bad", "missing", "fault"])
+                plan.append((kind, mode, "true" if rng.random() < 0.85 else "false"))
+        lines, reqs, faults = [], [], []
+        for i, (kind, mode, nonfatal) in enumerate(plan):
+            l, r = make_request(si, i, kind, mode, nonfatal)
+            lines += l
+            reqs.append(r)
+            if mode == "fault" and FAULT_TARGET.get(kind):
+                faults.append((FAULT_TARGET[kind], r["dest"]))
+            if mode == "fault-dirs":
+                faults.append(("makedirs", r["dest"]))
         lines.append("phases succeeded")
-        # fault injection: the k-th file-system primitive of the faulted request fails
-        patched = {}
-        state = {"req": -1}
-        if fault is not None:
-            target = {"doins": "copyfile", "dodoc": "copyfile", "doexe": "copyfile", "dodir": "makedirs", "keepdir": "makedirs",
-                      "dosym": "symlink"}[fault[1]]
 
-            def failing(*a, **kw):
-                raise OSError(errno.ENOSPC, os.strerror(errno.ENOSPC))
-            # the fault is armed only while the faulted request is being served (its unique dest is in the arguments)
-            marker = f"/d{fault[0]}"
-            if target == "copyfile":
-                orig = shutil.copyfile
-                patched["copyfile"] = orig
-                shutil.copyfile = lambda s, d, **kw: failing() if marker + "/" in d else orig(s, d, **kw)
-            elif target == "makedirs":
-                orig = os.makedirs
-                patched["makedirs"] = orig
-                os.makedirs = lambda p, *a, **kw: failing() if (marker + "/x") in p else orig(p, *a, **kw)
-            else:
-                orig = ebd_ipc.Dosym._link
-                patched["symlink"] = orig
-                ebd_ipc.Dosym._link = staticmethod(lambda s, d, **kw: failing() if marker + "/" in d else orig(s, d, **kw))
-            for r in reqs:
-                if r is reqs[fault[0]] and r["mode"] == "fault":
-                    r["expect"][2] = False
+        # fault injection: the primitive fails (ENOSPC) whenever it touches the destination of a faulted request
+        def failing():
+            raise OSError(errno.ENOSPC, os.strerror(errno.ENOSPC))
+        saved = (shutil.copyfile, os.makedirs, ebd_ipc.Dosym._link)
+        bad = {t: [d for tt, d in faults if tt == t] for t in ("copyfile", "makedirs", "symlink")}
+        if bad["copyfile"]:
+            shutil.copyfile = lambda s_, d_, _o=saved[0], **kw: failing() if any(m + "/" in d_ for m in bad["copyfile"]) else _o(s_, d_, **kw)
+        if bad["makedirs"]:
+            os.makedirs = lambda p_, *a, _o=saved[1], **kw: failing() if any((m + "/") in p_ + "/" for m in bad["makedirs"]) else _o(p_, *a, **kw)
+        if bad["symlink"]:
+            ebd_ipc.Dosym._link = staticmethod(lambda s_, d_, _o=saved[2], **kw: failing() if any(m + "/" in d_ for m in bad["symlink"]) else _o(s_, d_, **kw))
         try:
             end, replies, left, exc = sess.run(pkg, handlers, lines)
         finally:
-            if "copyfile" in patched:
-                shutil.copyfile = patched["copyfile"]
-            if "makedirs" in patched:
-                os.makedirs = patched["makedirs"]
-            if "symlink" in patched:
-                ebd_ipc.Dosym._link = patched["symlink"]
-        case = {"kind": "real", "requests": reqs, "fault": list(fault) if fault else None}
-        nontrivial = any(r["mode"] != "py" for r in reqs)
-        ctx.case(case, nontrivial, key=repr(lines))
+            shutil.copyfile, os.makedirs, ebd_ipc.Dosym._link = saved
+        case = {"kind": "real", "session": si, "requests": reqs, "faults": [list(f) for f in faults],
+                "note": "helper objects are shared by all sessions of the run, in session order"}
+        ctx.case(case, any(r["mode"] != "py" for r in reqs), key=repr(lines))
         for r in reqs:
-            ctx.count("helper_" + r["name"])
+            ctx.count("helper_" + r["kind"])
             ctx.count("mode_" + r["mode"])
         if replies is None:
             ctx.mismatch(case, "run_generic_phase never reached start_processing")
             continue
-        # requests processed: up to and including the first fatal failure
-        on_disk = []
-        for r in reqs:
-            kind_, path, _ = r["expect"]
-            if kind_ == "file":
-                ok = os.path.isfile(path) and open(path).read() == "content of f1"
-            elif kind_ == "dir":
-                ok = os.path.isdir(path)
-                if r["name"] == "keepdir":
-                    ok = ok and any(f.startswith(".keep_") for f in os.listdir(path))
-            elif kind_ == "link":
-                ok = os.path.islink(path) and os.readlink(path) == "/target/of/link"
-            else:
-                ok = os.path.exists(path)
-            on_disk.append(ok)
+        disk = [on_disk(r) for r in reqs]
+        for r, ok in zip(reqs, disk):
+            ctx.count("disk_%s_%s_%s" % (r["kind"], r["mode"], "ok" if ok else "failed"))
         reply_lines = replies.decode("utf-8", "surrogateescape").split("\n")
         n_replies = len(reply_lines) - 1
+        # requests processed: up to and including the first fatal failure
         n_proc = 0
-        for r, ok in zip(reqs, on_disk):
+        for r, ok in zip(reqs, disk):
             n_proc += 1
             if not ok and r["nonfatal"] != "true":
                 break
         if reply_lines[-1] != "" or n_replies != n_proc:
-            ctx.violation(case, f"{n_proc} requests were processed (first fatal failure included) but the reply stream is {reply_lines!r}")
+            ctx.violation(case, f"{n_proc} requests should have been processed (first fatal failure included) but the reply stream is "
+                                f"{reply_lines!r}; on disk the actions succeeded={disk}; session ended with {end!r} "
+                                f"({type(exc).__name__}: {str(exc)[:100]})")
             continue
-        fatal_failure = any((not ok) and r["nonfatal"] != "true" for r, ok in zip(reqs[:n_proc], on_disk))
+        fatal_failure = any((not ok) and r["nonfatal"] != "true" for r, ok in zip(reqs[:n_proc], disk))
         if fatal_failure and end != "buildFailed":
             ctx.violation(case, f"a fatal helper failure did not fail the build (session ended with {end!r})")
         if not fatal_failure and end != {"finished": True}:
             ctx.violation(case, f"no fatal failure, yet the session ended with {end!r} ({type(exc).__name__}: {str(exc)[:100]})")
-        for r, ok in zip(reqs[:n_proc], on_disk):
-            if ok != r["expect"][2]:
-                ctx.note(f"harness expectation differs from the disk for mode {r['mode']} of {r['name']} (informational)")
         streams.append((replies + b"SENTINEL\n", n_proc))
-        infos.append((case, reqs, on_disk))
-    for (case, reqs, on_disk), (rs, rest, eof) in zip(infos, bash_decode(ebd_path, streams)):
+        infos.append((case, reqs, disk))
+    for (case, reqs, disk), (rs, rest, eof) in zip(infos, bash_decode(ebd_path, streams)):
         if eof or rest != b"SENTINEL\n":
             ctx.violation(case, f"after one `read` per request bash is left with {rest[:80]!r} instead of the next message")
             continue
         got = [st == b"0" for _, st in rs]
-        want = on_disk[:len(rs)]
+        want = disk[:len(rs)]
         if got != want:
             ctx.violation(case, f"reply statuses read by bash {[st for _, st in rs]} say success={got}, on disk the actions succeeded={want}")
     ctx.extra["real_helper_sessions"] = nsess
